@@ -28,7 +28,7 @@ def check_document(doc, cs, W, force):
         return False, {"root": root.tag}
     langs = cs.get_languages()
     if W is LegacyDFXPWriter:
-        want_langs = [force if force in langs else langs[-1]] if force else langs
+        want_langs = [force if (force in langs or not langs) else langs[-1]] if force else langs
     else:
         want_langs = [force] if force in langs else langs
     if d["langs"] != want_langs:
@@ -105,13 +105,15 @@ def bounded(ctx, b):
     sets.append(("equal_spans_not_adjacent", CaptionSet({"en": CaptionList([
         Caption(10 ** 6, 3 * 10 ** 6, [T("a")]), Caption(3 * 10 ** 6, 4 * 10 ** 6, [T("b")]), Caption(10 ** 6, 3 * 10 ** 6, [T("c")]),
         Caption(10 ** 6, 3 * 10 ** 6, [T("d")]), Caption(4 * 10 ** 6, 6 * 10 ** 6, [T("e")])])})))
+    # no language at all: a head and an empty body - and no region nothing refers to
+    sets.append(("no_languages", CaptionSet({})))
     sets.append(("empty_last_language", CaptionSet({"en": CaptionList([Caption(0, 10 ** 6, [T("x")])]), "xx": CaptionList()})))
     # one writer object per configuration for every set of the run: a document depends on the caption set and the
     # options only, not on what the writer has written before
     shared = [W(**opts) for W, opts in WRITER_OPTIONS]
     for name, cs in sets:
         for wi, (W, opts) in enumerate(WRITER_OPTIONS):
-            for force in ["", cs.get_languages()[-1], "zz"]:
+            for force in ["", (cs.get_languages() or ["en"])[-1], "zz"]:
                 def one(W=W, opts=opts, force=force, cs=cs, wi=wi):
                     try:
                         doc = shared[wi].write(cs, force=force)
